@@ -13,8 +13,9 @@ RULE = ('real: pool size 1-4, threads on/off, 0-10 apply/map/imap jobs of 0-0.3 
         'reach its number of results), submissions after close() return None. '
         'Non-trivial: >=1 job unfinished at close(), or a map/imap job present.')
 ASSUMPTIONS = [
-    'no worker exits before close() in these histories and no maxtasksperchild '
-    '(a closed pool does not replace workers - known finding D10)',
+    'a worker may die and be replaced before close(), but close() is generated '
+    'only when no exit is pending, and there is no maxtasksperchild (a closed '
+    'pool does not replace workers - known finding D10)',
     'real processes/threads being gone after join() is checked by part real',
 ]
 SHARDS = {'quick': 8, 'thorough': 16}
@@ -25,7 +26,10 @@ def sim_cases():
     cfg = g.config(threads=True, putlocks=False)
     ops = g.worker_ops + [
         g.op_apply(), g.op_apply(), g.op_map(), g.op_map(), g.op_imap(chunked=True),
-        g.work, g.work, g.work, g.feed, g.close, g.tick, g.adv,
+        g.work, g.work, g.work, g.feed, g.close, g.tick, g.tick, g.adv,
+        # workers replaced (death noticed and repaired) BEFORE close() - a
+        # replacement's results must be credited like anybody else's
+        g.die, g.grow,
     ]
     return g.history(cfg, ops, max_ops=50, min_ops=8)
 
